@@ -1,7 +1,7 @@
 (** C05 — the clock's speed parameter: the C06 tween law for [Parameter<ClockSpeed>], speed changes
     take effect when due, a tween on the clock's OWN time never starts (F17), speeds whose tick
     loop never ends (F7). *)
-From Coq Require Import ZArith QArith Qround Lia Lqa Bool List.
+From Coq Require Import ZArith QArith Qround Lia Lqa Bool List Eqdep_dec.
 From KV Require Import Base.IEEE Base.Outcome Base.Num Base.QLemmas C19.Model C19.ProofsTime C06.Model C06.Dur C06.Proofs
   C05.Model C05.ProofsClock C05.ProofsEvent.
 Import ListNotations.
@@ -264,6 +264,10 @@ Lemma stuck_witnesses :
   clock_update (fun _ _ => f64_of_bits 0) 200 (fresh_ticking spt_zero) dt_16_at_512 no_info = Hang /\
   clock_update (fun _ _ => f64_of_bits 0) 200 (fresh_ticking tps_1e300) dt_16_at_512 no_info = Hang.
 Proof.
-  split; [split; vm_compute; reflexivity|]. split; [split; vm_compute; reflexivity|].
+  (* two finite floats with the same sign, mantissa and exponent are equal: the boundedness proof is
+     an equality between booleans, which is unique (no axiom) *)
+  assert (T : forall (a b : f64), a = b -> True) by (intros; exact I).
+  split; [split; vm_compute; first [reflexivity | f_equal; apply Eqdep_dec.UIP_dec; apply Bool.bool_dec]|].
+  split; [split; vm_compute; first [reflexivity | f_equal; apply Eqdep_dec.UIP_dec; apply Bool.bool_dec]|].
   split; vm_compute; reflexivity.
 Qed.
